@@ -12,6 +12,11 @@ def text(fn, e):
 
 
 def run(prog, chk):
+    drain_before_next_read(prog, chk)
+    _run(prog, chk)
+
+
+def _run(prog, chk):
     chk.explanation = (
         "net_tcp_async.c dispatch: (R10) recv(fd, inBuf + inLen, N) is dominated by inLen + N <= sizeof(inBuf) with the same N; a PDU is "
         "extracted and the remainder moved only under count != 0 and inLen >= count, with count = header + payload length of the "
@@ -219,3 +224,75 @@ def run(prog, chk):
     okhead = all(is_int(n2["a"][1], 0) for b2, i2, n2 in rem) and all(is_int(n2["a"][1], 0) for b2, i2, n2 in fn.calls("KSI_AsyncHandleList_elementAt"))
     chk.ob("C14.faults", "dispatch:head-of-queue", okhead and len(rem) >= 1,
            "only the head of the send queue is sent and removed (submission order)", loc=fn.loc(), fn=fn)
+
+
+def drain_before_next_read(prog, chk):
+    """C14.drain: bytes appended to the input buffer are offered to the extraction loop before the socket is read again,
+    closed, or the function returns."""
+    chk.rule("C14.drain", "received bytes reach the PDU extraction loop before the next recv / close / return", floor=1)
+    fn = prog.fn("dispatch", "net_tcp_async.c")
+    mr = list(fn.calls("KSI_FTLV_memRead"))
+    if len(mr) != 1:
+        raise AnalysisBroken("dispatch: extraction call not found")
+    mb = mr[0][0]
+    # head of the extraction loop: the closest dominating branch whose condition reads the fill level
+    grow = [(b, i, n) for b, i, n in fn.nodes() if n.get("k") == "asg" and n["op"] == "+=" and (lvalue_key(n["l"], fn) or "").endswith("->inLen")]
+    if not grow:
+        raise AnalysisBroken("dispatch: the store that accounts received bytes (inLen += c) was not found")
+    lk = lvalue_key(grow[0][2]["l"], fn)
+    dom = fn.dom()
+    heads = []
+    for c in dom[mb]:
+        cond = fn.branch_cond(c)
+        if cond is not None and lk in show(fn.deep(cond), fn).replace(" ", "") .replace("(", "").replace(")", "") and c != mb or \
+                (cond is not None and lk.replace("->", "->") in text(fn, cond) and any(e.dst == mb or mb in _reach(fn, e.dst, {c}) for e in fn.succ[c] if e.label == "T")):
+            heads.append(c)
+    heads = [c for c in heads if c != grow[0][0]]
+    if not heads:
+        raise AnalysisBroken("dispatch: head of the extraction loop not found")
+    targets = set(heads) | {mb}
+    sinks = {}
+    for b, i, n in fn.calls({"recv", "closeSocket"}):
+        sinks[b] = n["fn"]
+    for (b0, i0, n0) in grow:
+        seen = set()
+        work = [(e.dst, [b0, e.dst]) for e in fn.succ[b0]]
+        bad = None
+        while work and bad is None:
+            b, path = work.pop()
+            if b in seen or b in targets:
+                continue
+            seen.add(b)
+            if b in sinks:
+                bad = (sinks[b], path)
+                break
+            # an exit that reports a failure of the receive step itself (res = <error constant>, e.g. the accounting overflow check)
+            # is not a delivery path
+            sv = status_var(fn)
+            if any(n.get("k") == "asg" and is_var(n["l"], sv) and is_int(fn.resolve(strip(n["r"]))) and strip(fn.resolve(strip(n["r"])))["v"] != 0
+                   for el in fn.blocks[b]["elems"] for n in walk(el["e"])):
+                continue
+            if not fn.succ[b] or b == fn.exit:
+                bad = ("return", path)
+                break
+            # an error exit that reports a failure of the receive step itself (buffer overflow) is not a delivery path
+            for e in fn.succ[b]:
+                work.append((e.dst, path + [e.dst]))
+        chk.ob("C14.drain", "dispatch:inLen+=c", bad is None,
+               "after received bytes are accounted (%s += c) every path passes the extraction loop before recv / closeSocket / return"
+               % lk + ("" if bad is None else "; a path reaches %s first: the complete PDUs already buffered are dropped when the peer "
+                                                   "closes in the same round" % bad[0]),
+               loc=fn.loc(fn.elem_line(b0, i0)), fn=fn, path=None if bad is None else path_lines(fn, bad[1]))
+
+
+def _reach(fn, b, stop):
+    seen = set()
+    work = [b]
+    while work:
+        x = work.pop()
+        if x in seen or x in stop:
+            continue
+        seen.add(x)
+        for e in fn.succ[x]:
+            work.append(e.dst)
+    return seen
